@@ -81,7 +81,15 @@ def check_pair(rec: Rec, kind: str, base: str, variant: str, origin: str):
 
 
 def replay(rec, case):
+    from ..lib import IBAN, outcome
     i = case["input"]
+    if i["kind"] == "generate":
+        b, v = i["base"], i["variant"]
+        base = outcome(lambda: str(IBAN.generate(i["cc"], bank_code=b[0], account_code=b[1], branch_code=b[2])))
+        got = outcome(lambda: str(IBAN.generate(i["cc"], bank_code=v[0], account_code=v[1], branch_code=v[2])))
+        if not ((got[0] == base[0]) and (got[0] != "ok" or got[1] == base[1])):
+            rec.fail("generate_variant_differs|replay", "generate_variants_alike", i, base[:2], got[:2])
+        return
     check_pair(rec, i["kind"], i["base"], i["variant"], i.get("origin", "replay"))
 
 
@@ -106,6 +114,32 @@ def differs_nontrivially(base, variant):
     return b != v
 
 
+def check_generate_variants(rec: Rec, cc, rng):
+    """Whitespace and case of the *components* handed to IBAN.generate never matter either (whitespace-only == empty)."""
+    from ..lib import IBAN, outcome
+    from .c08 import conforming, field_info
+    from ._shared import oracle
+    o = oracle()
+    if not o.positions(cc):
+        return
+    fi = field_info(cc)
+    comps = {k: conforming(rng, fi[k][2], len(fi[k][2])) for k in fi}
+    combined = comps["bank_code"] + comps["branch_code"]
+    cases = [(comps["bank_code"], comps["account_code"], comps["branch_code"]), (combined, comps["account_code"], "")]
+    for bank, acct, branch in cases:
+        base = outcome(lambda: str(IBAN.generate(cc, bank_code=bank, account_code=acct, branch_code=branch)))
+        for w in (" ", "\t", "\xa0", "\n "):
+            variants = [(w + bank + w, acct, branch), (bank.lower(), w.join(acct) if acct else acct, branch),
+                        (bank, acct, (branch + w) if branch else w), (bank, w + acct, (w + branch.lower()) if branch else w + w)]
+            for vb, va, vr in variants:
+                got = outcome(lambda: str(IBAN.generate(cc, bank_code=vb, account_code=va, branch_code=vr)))
+                same = (got[0] == base[0]) and (got[0] != "ok" or got[1] == base[1])
+                if not same:
+                    rec.fail(f"generate_variant_differs|{'ws-only-branch' if not branch else 'components'}", "generate_variants_alike",
+                             {"kind": "generate", "cc": cc, "base": [bank, acct, branch], "variant": [vb, va, vr]}, base[:2], got[:2])
+                rec.case("generate-variant", (cc, vb, va, vr))
+
+
 def shard_country(arg):
     cc, seed, tier = arg
     import random
@@ -123,6 +157,20 @@ def shard_country(arg):
                 check_pair(rec, "iban", base, v, "ws-insert")
                 rec.case("iban-ws-insert", (base, v) if w != " " else None)
         rec.exhaustive.append("every whitespace character of W inserted at every position of a valid IBAN per country")
+        if bi < 2:
+            from .. import dims
+            for label, v in dims.whitespace_extremes(base):
+                check_pair(rec, "iban", base, v, f"ws-extreme:{label}")
+                rec.case("iban-ws-extreme", (base, label))
+            # texts carrying a domain token (label) are judged like any other text: all whitespace/case variants alike
+            for tok in dims.token_dictionary()[:10 if quick else 60]:
+                b2 = tok + base
+                for v in (tok + " " + base, tok.lower() + "\t" + base.lower(), " " + tok + "  " + base, tok + "\xa0" + base,
+                          " ".join(tok) + base):
+                    if norm(v) == norm(b2):
+                        check_pair(rec, "iban", b2, v, "token-base")
+                        rec.case("iban-token-base", (b2, v), {"base": b2, "variant": v} if tok == "IBAN" and bi == 0 else None)
+            check_generate_variants(rec, cc, rng)
         for _ in range(6 if quick else 60):
             v = make_variant(rng, base, gens.WHITESPACE)
             ok = check_pair(rec, "iban", base, v, "variant-of-valid")
@@ -153,6 +201,16 @@ def shard_bic(arg):
                     v = base[:i] + w + base[i:]
                     check_pair(rec, "bic", base, v, "ws-insert")
                     rec.case("bic-ws-insert", (base, v) if w != " " else None)
+        if n % 10 == 0:
+            from .. import dims
+            for label, v in dims.whitespace_extremes(base):
+                check_pair(rec, "bic", base, v, f"ws-extreme:{label}")
+                rec.case("bic-ws-extreme", (base, label))
+            for tok in ("BIC", "SWIFT", "BIC:", "SWIFT:"):
+                b2 = tok + base
+                for v in (tok + " " + base, tok.lower() + " " + base.lower()):
+                    check_pair(rec, "bic", b2, v, "token-base")
+                    rec.case("bic-token-base", (b2, v))
         for _ in range(3):
             v = make_variant(rng, base, gens.WHITESPACE)
             check_pair(rec, "bic", base, v, "variant-of-registry-bic")
@@ -212,5 +270,6 @@ def run(ctx):
     chunk = max(1, len(sel) // 32)
     ctx.pmap(shard_bic, [(sel[i:i + chunk], ctx.seed, ctx.tier) for i in range(0, len(sel), chunk)])
     ctx.hyp_explore(strategy(), hyp_body, ctx.pick(3000, 100000), name="C10-hyp")
-    ctx.require_classes("iban-ws-insert", "iban-valid-variant", "iban-invalid-variant", "bic-ws-insert", "bic-valid-variant",
+    ctx.require_classes("iban-ws-extreme", "iban-token-base", "generate-variant", "bic-ws-extreme", "bic-token-base",
+                        "iban-ws-insert", "iban-valid-variant", "iban-invalid-variant", "bic-ws-insert", "bic-valid-variant",
                         "bic-invalid-variant", "hyp-iban", "hyp-bic")
